@@ -101,6 +101,21 @@ func H_C14_release() {
 			out := new(testproto.Msg)
 			err := cc.Invoke(context.Background(), "/"+zzSvcName+"/Unary", &testproto.Msg{Value: 1}, out)
 			vfAssert((err != nil) == (outcome != 0), "unary-outcome")
+		case 7:
+			// the caller cancels an idle stream while the transport (transiently) refuses writes:
+			// the reset cannot be written, the registration must go all the same
+			ctx, cancel := context.WithCancel(context.Background())
+			cs, err := cc.NewStream(ctx, bidi, "/"+zzSvcName+"/ServerStream")
+			vfAssert(err == nil, "opens")
+			flaky.mu.vfLock()
+			flaky.fail = true
+			flaky.mu.vfUnlock()
+			cancel()
+			if err == nil {
+				out := new(testproto.Msg)
+				for cs.RecvMsg(out) == nil {
+				}
+			}
 		case 2, 3, 4:
 			ctx, cancel := context.WithCancel(context.Background())
 			if outcome == 4 {
@@ -134,6 +149,11 @@ func H_C14_release() {
 			return
 		}
 		vfAssert(vfFieldLen(cc, "mp.handlers") == base, "client-registry-back-to-its-previous-size")
+		if outcome == 7 {
+			// the server never learns about the cancellation (the reset could not be written): only the client side is checked
+			vfReach("checked")
+			return
+		}
 		vfAssert(vfFieldLen(h, "streams") == base, "server-registry-back-to-its-previous-size")
 		// goroutines: connection-level ones (mux read loop, server writer + 8 workers) plus, with
 		// a pre-existing stream, its client read loop and its server handler
